@@ -167,6 +167,32 @@ Plan generate_plan(const Desc& d, const Variant& v, const Profile& pf, uint64_t 
                 }
                 op.posts.push_back(p);
             }
+            // an earlier submission of the same op can change the flow, so that a later one fires in another context than
+            // the fault-free dry run showed: run the op with its posts and turn every process_event that would reach a
+            // machine which is not processing into enqueue_event (known finding KF-1 belongs to the `reentrant` profile)
+            if (!pf.allow_reentrant) {
+                for (int iter = 0; iter < 4; ++iter) {
+                    World t2(gw);
+                    size_t f2 = t2.env.trace.size();
+                    t2.exec(op, idx);
+                    bool changed = false;
+                    const Rec* host = nullptr;
+                    for (size_t i = f2; i < t2.env.trace.size(); ++i) {
+                        const Rec& r = t2.env.trace[i];
+                        if (r.kind <= K_EC) { host = &r; continue; }
+                        if (r.kind != K_POST || !host || r.site != API_PROCESS) continue;
+                        bool busy = r.val ? (host->aux & 2) : (host->aux & 1);
+                        if (busy) continue;
+                        for (auto& p : op.posts)
+                            if (p.occ == r.occ && p.api == API_PROCESS) {
+                                p.api = API_ENQUEUE;
+                                if (!pf.post_enqueue_sub && !p.to_root && host->mach != 0) p.to_root = 1;
+                                changed = true;
+                            }
+                    }
+                    if (!changed) break;
+                }
+            }
         }
         if (want_throw) {
             int k = 1 + (int)rng.below((uint32_t)pf.max_throws);
